@@ -15,7 +15,7 @@ import (
 func init() {
 	register(&Prop{
 		ID:          "C04",
-		Explanation: "Decides that sessions are built from claims only behind token verification: idTokenVerifier.Verify returns a token only when go-oidc's Verify returned it without error and verifyAudience's verdict was true; verifyAudience/isValidAudience are true only on a membership hit of a token audience in allowedAudiences, whose only writer is NewVerifier (keys: ClientID, ExtraAudiences); every oidc.Config literal leaves expiry and signature checks on and takes SkipIssuerCheck from SkipIssuerVerification alone (SkipClientIDCheck:true is accepted because the own audience check is proven); createSession / CreateSessionFromToken / the bearer closure build a session from the raw token only on paths where that same token passed Verify (sole exception: refresh with ErrMissingIDToken, where the token string is empty); the email_verified gate guards every success return of the two claim readers; the bearer loader list holds only provider.CreateSessionFromToken and CreateTokenToSessionFunc(verifier.Verify); every override of CreateSessionFromToken/RefreshSession/Redeem on an OIDC-embedding provider succeeds only after the embedded implementation succeeded; the claim extractor's token document is set once and never mutated, and GetClaim returns a profile-endpoint value only after the token lookup for that claim returned nothing. Added during the build: buildSessionFromClaims reads a claim from the verified token's claims before any profile-URL fallback (R7). Every go-oidc Claims() target is a variable of the calling invocation, so claims absent from one token cannot be inherited from another (R8). Round 3: every write of ProviderVerifierOptions.SkipIssuerVerification is the operator's option or constant false (under R2). Round 4: each insecure OIDC toggle is converted from the legacy flag of the same meaning (R9); every verifier is built from an options value of its own (R10); verifyAudience consults at most one audience claim found in the token — the first configured one present decides (under R1).",
+		Explanation: "Decides that sessions are built from claims only behind token verification: idTokenVerifier.Verify returns a token only when go-oidc's Verify returned it without error and verifyAudience's verdict was true; verifyAudience/isValidAudience are true only on a membership hit of a token audience in allowedAudiences, whose only writer is NewVerifier (keys: ClientID, ExtraAudiences); every oidc.Config literal leaves expiry and signature checks on and takes SkipIssuerCheck from SkipIssuerVerification alone (SkipClientIDCheck:true is accepted because the own audience check is proven); createSession / CreateSessionFromToken / the bearer closure build a session from the raw token only on paths where that same token passed Verify (sole exception: refresh with ErrMissingIDToken, where the token string is empty); the email_verified gate guards every success return of the two claim readers; the bearer loader list holds only provider.CreateSessionFromToken and CreateTokenToSessionFunc(verifier.Verify); every override of CreateSessionFromToken/RefreshSession/Redeem on an OIDC-embedding provider succeeds only after the embedded implementation succeeded; the claim extractor's token document is set once and never mutated, and GetClaim returns a profile-endpoint value only after the token lookup for that claim returned nothing. Added during the build: buildSessionFromClaims reads a claim from the verified token's claims before any profile-URL fallback (R7). Every go-oidc Claims() target is a variable of the calling invocation, so claims absent from one token cannot be inherited from another (R8). Round 3: every write of ProviderVerifierOptions.SkipIssuerVerification is the operator's option or constant false (under R2). Round 4: each insecure OIDC toggle is converted from the legacy flag of the same meaning (R9); every verifier is built from an options value of its own (R10); verifyAudience consults at most one audience claim found in the token — the first configured one present decides (under R1). Round 6: the configured provider's own CreateSessionFromToken (which applies the operator's claim mapping) is one of the bearer loaders (under R5).",
 		NotDecided:  "claim-value equality between token and session fields; go-oidc's signature/issuer/expiry code (trusted when not told to skip); the legacy Azure provider's extractClaimsIntoSession (verifies either token, reads the ID token's claims) is listed as an unclaimed site.",
 		Run:         runC04,
 	})
@@ -27,7 +27,7 @@ func runC04(c *Ctx) {
 	r.Rule("R2-oidc-config", "oidc.Config literals: expiry/signature checks never skipped; SkipIssuerCheck only from SkipIssuerVerification", 5)
 	r.Rule("R3-same-token", "claims are read only from the token that passed Verify on this path", 6)
 	r.Rule("R4-email-verified", "email_verified gate on every success return of the claim readers", 5)
-	r.Rule("R5-bearer-loaders", "bearer loader list = provider.CreateSessionFromToken + CreateTokenToSessionFunc(verifier.Verify)", 2)
+	r.Rule("R5-bearer-loaders", "bearer loader list = the configured provider's CreateSessionFromToken + CreateTokenToSessionFunc(verifier.Verify)", 3)
 	r.Rule("R9-legacy-toggle-table", "each insecure OIDC toggle is converted from the legacy flag of the same meaning", 4)
 	r.Rule("R10-verifier-options-per-issuer", "every verifier is built from an options value of its own (no options object shared between issuers)", 2)
 	r.Rule("R8-claims-target-fresh", "every go-oidc Claims() target is a variable allocated in the calling invocation", 3)
@@ -191,8 +191,11 @@ func runVerifierRule(c *Ctx, rule string) {
 	}
 }
 
-func runC04R2(c *Ctx) {
-	rule := "R2-oidc-config"
+func runC04R2(c *Ctx) { runOIDCConfigRule(c, "R2-oidc-config") }
+
+// runOIDCConfigRule: every oidc.Config literal keeps expiry and signature checks on and takes SkipIssuerCheck from the
+// SkipIssuerVerification option alone (C04.R2, also C01.R11: the verifiers of bearer tokens are built from it).
+func runOIDCConfigRule(c *Ctx, rule string) {
 	cfgT := c.P.Named("github.com/coreos/go-oidc/v3/oidc.Config")
 	skipIssuerOpt := c.Field(rule, "pkg/providers/oidc.ProviderVerifierOptions.SkipIssuerVerification")
 	if cfgT == nil || skipIssuerOpt == nil {
@@ -509,6 +512,7 @@ func runC04R5(c *Ctx) {
 	}
 	// every value stored into a []TokenToSessionFunc backing array in buildSessionChain
 	n := 0
+	providerLoader := false
 	for _, b := range bsc.Blocks {
 		for _, in := range b.Instrs {
 			st, ok := in.(*ssa.Store)
@@ -526,6 +530,9 @@ func runC04R5(c *Ctx) {
 			case *ssa.MakeClosure:
 				fn := x.Fn.(*ssa.Function)
 				if fn.Synthetic != "" && strings.HasPrefix(fn.Name(), "CreateSessionFromToken") {
+					if len(x.Bindings) == 1 && len(bsc.Params) > 1 && x.Bindings[0] == ssa.Value(bsc.Params[1]) {
+						providerLoader = true
+					}
 					c.ok(rule, key, st, "provider.CreateSessionFromToken (bound interface method)")
 					continue
 				}
@@ -545,6 +552,13 @@ func runC04R5(c *Ctx) {
 	}
 	if n < 2 {
 		c.R.Unknown(rule, "loader|count", c.P.Pos(bsc.Pos()), "expected the provider loader and the extra-issuer loaders in buildSessionChain")
+	}
+	// the provider's own tokens go through the provider's CreateSessionFromToken: the OIDC family overrides it to build the
+	// session from the operator's configured claims (e-mail, groups, roles); the generic closure reads the standard ones
+	if providerLoader {
+		c.R.OK(rule, "provider-loader|"+fnKey(bsc), c.P.Pos(bsc.Pos()), "the configured provider's own CreateSessionFromToken is one of the loaders")
+	} else {
+		c.R.Bad(rule, "provider-loader|"+fnKey(bsc), c.P.Pos(bsc.Pos()), "the configured provider's own CreateSessionFromToken is not among the bearer loaders: its tokens are turned into sessions by the generic closure, which ignores the provider's claim mapping (oidc-email-claim, oidc-groups-claim, Keycloak roles), so authorisation is evaluated on claims the operator did not choose", nil, nil)
 	}
 	// the list given to NewJwtSessionLoader is that list (only call site)
 	for _, cs := range c.callersOf(newJwt) {
